@@ -64,12 +64,20 @@ void log_info(const char *format, ...) { (void)format; }
 
 #define P(...) do { printf(__VA_ARGS__); fflush(stdout); } while (0)
 
+static unsigned nib(char c)
+{
+	if (c >= '0' && c <= '9') return (unsigned)(c - '0');
+	if (c >= 'a' && c <= 'f') return (unsigned)(c - 'a' + 10);
+	if (c >= 'A' && c <= 'F') return (unsigned)(c - 'A' + 10);
+	return 0;
+}
+
 static uint8_t *unhex(const char *s, size_t *n)
 {
 	if (s == NULL || strcmp(s, "-") == 0) { *n = 0; return malloc(1); }
 	size_t l = strlen(s) / 2;
 	uint8_t *b = malloc(l + 1);
-	for (size_t i = 0; i < l; i++) { unsigned v; sscanf(s + 2 * i, "%2x", &v); b[i] = (uint8_t)v; }
+	for (size_t i = 0; i < l; i++) b[i] = (uint8_t)((nib(s[2 * i]) << 4) | nib(s[2 * i + 1]));
 	*n = l;
 	return b;
 }
